@@ -164,8 +164,11 @@ def gen_case(rng, tier, index):
         elif rng.random() < 0.12:
             # integral-valued float / numpy integer position: the statement does not say whether such a
             # call is valid - but if it is accepted the record must still be well-formed
-            a["position"] = rng.choice([float(a["position"]), np.int64(a["position"]), np.float64(a["position"])])
+            a["position"] = rng.choice([float(a["position"]), np.int64(a["position"]), np.float64(a["position"]), True])
             case["either"] = "position"
+        elif rng.random() < 0.04:
+            # the library's own identifier enum as rack label: the record names the identifier, not the enum member
+            a["rack_label"] = {"__labwares__": "SystemLiquid"}
         case["args"], case["kw"] = enc(a), enc(kw)
     elif entry == "reagent_distribution":
         s0 = rng.randint(1, 40)
@@ -226,6 +229,15 @@ def gen_case(rng, tier, index):
             which = rng.choice(["src_start", "src_end", "dst_start", "dst_end"])
             a[which] = rng.choice([float(a[which]), np.int64(a[which])])
             case["either"] = which
+        elif rng.random() < 0.05 and d1 - d0 >= 3:
+            # excluded wells given as integral floats / booleans / numpy integers
+            kw["exclude_wells"] = [rng.choice([float(d0 + 1), np.int64(d0 + 1)]), d0 + 2] if d0 > 1 or rng.random() < 0.5 else [True, d0 + 2]
+            case["either"] = "exclude_wells"
+        elif rng.random() < 0.08:
+            # the two counts: a refusal is fine, an accepted call must still emit a well-formed record
+            which = rng.choice(["diti_reuse", "multi_disp"])
+            kw[which] = rng.choice(["x;y", -3.5, 2.5, True, ";"])
+            case["either"] = which
         case["args"], case["kw"] = enc(a), enc(kw)
     elif entry == "comment":
         r = rng.random()
@@ -243,7 +255,7 @@ def gen_case(rng, tier, index):
     elif entry == "wash":
         r_ = rng.random()
         if r_ < 0.1:
-            case["args"] = enc({"scheme": rng.choice([1.0, 2.0, 4.0, np.int64(3)])})
+            case["args"] = enc({"scheme": rng.choice([1.0, 2.0, 4.0, np.int64(3), True])})
             case["either"] = "scheme"
         elif r_ < 0.6:
             case["args"] = {"scheme": rng.choice([1, 2, 3, 4])}
@@ -258,7 +270,7 @@ def gen_case(rng, tier, index):
         case["prefix"] = rng.choice(["empty", "break", "script_break", "aspirate", "comment", "wash", "set_diti"])
         r = rng.random()
         if r < 0.08:
-            case["args"] = enc({"index": rng.choice([2.0, np.int64(3), 1.0])})
+            case["args"] = enc({"index": rng.choice([2.0, np.int64(3), 1.0, True, False])})
             case["either"] = "index"
         elif r < 0.75:
             case["args"] = {"index": rng.choice([0, 1, 2, 5, 12, 255])}
@@ -355,6 +367,13 @@ def run_case(ctx, case):
     before = list(wl)
     a = dec(case.get("args", {})) or {}
     kw = dec(case.get("kw", {})) or {}
+    if isinstance(a.get("rack_label"), dict) and "__labwares__" in a["rack_label"]:
+        member = robotools.Labwares[a["rack_label"]["__labwares__"]]
+        a = dict(a, rack_label=member.value)  # what the record has to carry
+        label_arg = member
+        ctx.count("rack_label_given_as_Labwares_member")
+    else:
+        label_arg = a.get("rack_label")
     ex_given = kw.get("exclude_wells")
     if isinstance(ex_given, dict) and ("__iter__" in ex_given or "__gen__" in ex_given):
         items = list(ex_given.get("__iter__") or ex_given.get("__gen__"))
@@ -364,7 +383,7 @@ def run_case(ctx, case):
     exc = None
     try:
         if entry in ("aspirate_well", "dispense_well"):
-            getattr(wl, entry)(a["rack_label"], a["position"], a["volume"], **kw)
+            getattr(wl, entry)(label_arg, a["position"], a["volume"], **kw)
         elif entry == "reagent_distribution":
             wl.reagent_distribution(a["src_rack_label"], a["src_start"], a["src_end"], a["dst_rack_label"], a["dst_start"], a["dst_end"], **kw)
         elif entry == "comment":
